@@ -9,6 +9,8 @@ use std::collections::BTreeMap;
 pub type Reg = Registry!(A, Z, H, O, W);
 pub type Res = Resources!(P0, P1, P2, P3);
 pub type Wd = World<Reg, Res>;
+pub type Res0 = Resources!();
+pub type Wd0 = World<Reg, Res0>;
 pub const NC: usize = 5;
 pub const COMP_NAMES: [&str; 5] = ["A", "Z", "H", "O", "W"];
 
@@ -43,85 +45,67 @@ macro_rules! col {
     }};
 }
 
-/// Add `n` entities of shape `mask` (bit i = local component i).
-pub fn populate(w: &mut Wd, mask: u8, n: usize, seed: u64) -> Vec<entity::Identifier> {
-    macro_rules! arm {
-        () => { w.extend(Batch::new(entities::Null)) };
-        ($($t:ty : $c:expr),+) => { w.extend(Batch::new(arm!(@nest $($t : $c),+))) };
-        (@nest $t:ty : $c:expr) => { (col!($t, n, seed, $c), entities::Null) };
-        (@nest $t:ty : $c:expr, $($rest:tt)+) => { (col!($t, n, seed, $c), arm!(@nest $($rest)+)) };
+pub type Snapshot = BTreeMap<(usize, u64), [Option<u64>; NC]>;
+
+pub mod full {
+    use super::*;
+    pub type TheWorld = Wd;
+    include!("world5_fns.rs");
+}
+/// The same registry on a world without resources (`World::new()`).
+pub mod nores {
+    use super::*;
+    pub type TheWorld = Wd0;
+    include!("world5_fns.rs");
+}
+pub use full::{populate, snapshot};
+
+/// What the schedule runner needs from a world, so that one runner serves both world types.
+pub trait SimWorld: Clone {
+    const HAS_RESOURCES: bool;
+    fn new_world(seed: u64) -> Self;
+    fn populate(&mut self, mask: u8, n: usize, seed: u64) -> Vec<entity::Identifier>;
+    fn snapshot(&mut self) -> Result<Snapshot, String>;
+    fn resource_vals(&self) -> [u64; 4];
+    fn remove_entity(&mut self, id: entity::Identifier);
+}
+
+impl SimWorld for Wd {
+    const HAS_RESOURCES: bool = true;
+    fn new_world(seed: u64) -> Self {
+        new_world(seed)
     }
-    match mask & 31 {
-        0 => {
-            // A batch without columns has no rows: insert one by one.
-            (0..n).map(|_| w.insert(brood::entity!())).collect()
-        }
-        1 => arm!(A:0),
-        2 => arm!(Z:1),
-        3 => arm!(A:0, Z:1),
-        4 => arm!(H:2),
-        5 => arm!(A:0, H:2),
-        6 => arm!(Z:1, H:2),
-        7 => arm!(A:0, Z:1, H:2),
-        8 => arm!(O:3),
-        9 => arm!(A:0, O:3),
-        10 => arm!(Z:1, O:3),
-        11 => arm!(A:0, Z:1, O:3),
-        12 => arm!(H:2, O:3),
-        13 => arm!(A:0, H:2, O:3),
-        14 => arm!(Z:1, H:2, O:3),
-        15 => arm!(A:0, Z:1, H:2, O:3),
-        16 => arm!(W:4),
-        17 => arm!(A:0, W:4),
-        18 => arm!(Z:1, W:4),
-        19 => arm!(A:0, Z:1, W:4),
-        20 => arm!(H:2, W:4),
-        21 => arm!(A:0, H:2, W:4),
-        22 => arm!(Z:1, H:2, W:4),
-        23 => arm!(A:0, Z:1, H:2, W:4),
-        24 => arm!(O:3, W:4),
-        25 => arm!(A:0, O:3, W:4),
-        26 => arm!(Z:1, O:3, W:4),
-        27 => arm!(A:0, Z:1, O:3, W:4),
-        28 => arm!(H:2, O:3, W:4),
-        29 => arm!(A:0, H:2, O:3, W:4),
-        30 => arm!(Z:1, H:2, O:3, W:4),
-        _ => arm!(A:0, Z:1, H:2, O:3, W:4),
+    fn populate(&mut self, mask: u8, n: usize, seed: u64) -> Vec<entity::Identifier> {
+        full::populate(self, mask, n, seed)
+    }
+    fn snapshot(&mut self) -> Result<Snapshot, String> {
+        full::snapshot(self)
+    }
+    fn resource_vals(&self) -> [u64; 4] {
+        resource_vals(self)
+    }
+    fn remove_entity(&mut self, id: entity::Identifier) {
+        self.remove(id);
     }
 }
 
-pub type Snapshot = BTreeMap<(usize, u64), [Option<u64>; NC]>;
-
-/// Full extraction of the world by value (serials ignored).
-pub fn snapshot(w: &mut Wd) -> Result<Snapshot, String> {
-    let mut out = Snapshot::new();
-    let res = w.query(Query::<Views!(entity::Identifier, Option<&A>, Option<&Z>, Option<&H>, Option<&O>, Option<&W>)>::new());
-    for brood::query::result!(id, a, z, h, o, ww) in res.iter {
-        let mut rec = [None; NC];
-        if let Some(a) = a {
-            a.integrity()?;
-            rec[0] = Some(a.val());
-        }
-        if z.is_some() {
-            rec[1] = Some(0);
-        }
-        if let Some(h) = h {
-            h.integrity()?;
-            rec[2] = Some(h.val());
-        }
-        if let Some(o) = o {
-            o.integrity()?;
-            rec[3] = Some(o.val());
-        }
-        if let Some(x) = ww {
-            x.integrity()?;
-            rec[4] = Some(x.val());
-        }
-        if out.insert(id.verif_parts(), rec).is_some() {
-            return Err(format!("identifier {:?} yielded twice", id.verif_parts()));
-        }
+impl SimWorld for Wd0 {
+    const HAS_RESOURCES: bool = false;
+    fn new_world(_seed: u64) -> Self {
+        World::new()
     }
-    Ok(out)
+    fn populate(&mut self, mask: u8, n: usize, seed: u64) -> Vec<entity::Identifier> {
+        nores::populate(self, mask, n, seed)
+    }
+    fn snapshot(&mut self) -> Result<Snapshot, String> {
+        nores::snapshot(self)
+    }
+    fn resource_vals(&self) -> [u64; 4] {
+        [0; 4]
+    }
+    fn remove_entity(&mut self, id: entity::Identifier) {
+        self.remove(id);
+    }
 }
 
 pub fn resource_vals(w: &Wd) -> [u64; 4] {
